@@ -17,6 +17,10 @@ FIXED = [
      [('r1', [1, 1]), ('r2', [2, 1])]),
     ('oo_chain', 'class A { real id; A(real id) : id(id) {} }\nclass H { A ref; H(A ref) : ref(ref) {} }\nclass K { H h; K(H h) : h(h) {} }\nA a = new A(3.0);\nH h = new H(a);\nK k = new K(h);\nreal r1; r1 == k.h.ref.id;\n',
      [('r1', [3, 1])]),
+    ('oo_nested_super', 'class Fleet { real size = 0.0; class Unit { real id = 7.0; Unit() {} Unit(real id) : id(id) {} } }\nclass Truck : Fleet.Unit { real w; Truck(real id, real w) : Unit(id), w(w) {} }\nFleet f = new Fleet();\nFleet.Unit u0 = new Fleet.Unit(1.0);\nTruck t1 = new Truck(2.0, 3.5);\nTruck t2 = new Truck(3.0, 4.5);\nreal r1; r1 == t1.id;\nreal r2; r2 == t2.id;\nreal r3; r3 == t1.w;\nreal r4; r4 == u0.id;\nFleet.Unit d = new Fleet.Unit();\nreal r5; r5 == d.id;\n',
+     [('r1', [2, 1]), ('r2', [3, 1]), ('r3', [7, 2]), ('r4', [1, 1]), ('r5', [7, 1])]),
+    ('oo_two_supers', 'class A { real a; A(real a) : a(a) {} }\nclass B { real b = 4.0; B() {} B(real b) : b(b) {} }\nclass C : A, B { real c; C(real x) : A(x), B(x + 1.0), c(x + 2.0) {} }\nC o = new C(1.0);\nreal r1; r1 == o.a;\nreal r2; r2 == o.b;\nreal r3; r3 == o.c;\n',
+     [('r1', [1, 1]), ('r2', [2, 1]), ('r3', [3, 1])]),
 ]
 
 
